@@ -1,2 +1,367 @@
--- stub: replaced by the codec engine driver
-def main : IO Unit := pure ()
+/-
+Line-protocol driver for the codec engine (C16).
+Reply format: `<model>\t<spec>`; spec patterns: `*` anything, `a|b` alternatives, `pre*` prefix.
+
+Ops (all stateless; numbers decimal, bytes hex, `-` = empty):
+  uv.put N | uv.get HEX | uv.read HEX
+  lock.rt PRIMARY TS TTL KIND MINC | lock.dec HEX | write.rt KIND START SHORT | write.dec HEX
+  man.rt EDIT | man.dec HEX | man.read HEX
+  ikey.rt CF UKEY TS | ikey.split HEX | kts.rt KEY TS | kts.parse HEX | key.cmp A B
+  vs.rt META EXP VALUE | vs.dec HEX | vp.rt LEN OFF FID BUCKET | vp.dec HEX
+  hdr.rt KLEN VLEN META EXP | hdr.dec HEX | ent.rt KEY VAL META EXP | ent.dec HEX | vsl.dec HEX
+  cmd.rt BODY | cmd.dec HEX | raft.ents.rt GID BODIES | raft.ents.dec HEX
+  raft.hs.rt GID BODY | raft.hs.dec HEX | raft.snap.rt GID BODY | raft.snap.dec HEX
+`X.rt` = encode then decode: `<decode outcome> <hex of the encoding>`; the spec column of an
+`rt` op is the canonical text of the *input* value (round trip), of a `dec` op "not panic,
+not oom".
+-/
+import Driver.Lib
+import NoKVModel.Codec.Cfg
+import NoKVModel.Codec.Prim
+import NoKVModel.Codec.Perc
+import NoKVModel.Codec.Manifest
+import NoKVModel.Codec.Key
+import NoKVModel.Codec.Value
+import NoKVModel.Codec.Raft
+
+open NoKV NoKV.Codec Driver
+
+def setCfg (c : CodecCfg) (kv : String) : Option CodecCfg :=
+  match kv.splitOn "=" with
+  | [k, v] =>
+    let lg : Option LenGuard := if v == "intwrap" then some .intwrap else if v == "u64" then some .u64 else none
+    let two (a b : String) : Option Bool := if v == a then some false else if v == b then some true else none
+    match k with
+    | "perc.lockLenGuard" => do let g ← lg; pure { c with lockLenGuard := g }
+    | "perc.writeLenGuard" => do let g ← lg; pure { c with writeLenGuard := g }
+    | "raft.lenGuard" => do let g ← lg; pure { c with raftLenGuard := g }
+    | "man.uvarint" =>
+      if v == "raw" then some { c with manUvarint := .raw }
+      else if v == "sticky" then some { c with manUvarint := .sticky } else none
+    | "man.readBytes" =>
+      if v == "intwrap" then some { c with manReadBytes := .intwrap }
+      else if v == "sticky" then some { c with manReadBytes := .sticky } else none
+    | "man.peersCap" => do let b ← two "declared" "bounded"; pure { c with manPeersBounded := b }
+    | "man.frameAlloc" => do let b ← two "declared" "bounded"; pure { c with manFrameBounded := b }
+    | "entry.alloc" => do let b ← two "declared" "bounded"; pure { c with entryAllocBounded := b }
+    | "vs.decodeGuard" => do let b ← two "none" "checked"; pure { c with vsDecodeChecked := b }
+    | "key.parseTsMin" => do let o ← CmpOp.ofString? v; pure { c with parseTsMin := o }
+    | "key.tsEnc" => some { c with tsInverted := v == "maxminus" }
+    | "key.cmpShape" => some { c with cmpPrefixSuffix := v == "prefix-then-suffix8" }
+    | "key.cfMarker" => some { c with cfMarkerOk := v == "ff4346:2" }
+    | _ => none
+  | _ => none
+
+def hx (b : Bytes) : String := b.toHex
+
+def outStr {α : Type} (f : α → String) : Out α → String
+  | .ok a => f a
+  | .err .gen => "err"
+  | .err .eof => "err:eof"
+  | .err .ueof => "err:ueof"
+  | .err .crc => "err:crc"
+  | .err .part => "err:partial"
+  | .panic => "panic"
+  | .oom => "oom-guard"
+
+def lockStr (l : Lock) : String := s!"ok:{hx l.primary}:{l.ts}:{l.ttl}:{l.kind}:{l.minCommitTs}"
+def writeStr (w : Write) : String := s!"ok:{w.kind}:{w.startTs}:{hx w.short}"
+
+def b01 (b : Bool) : String := if b then "1" else "0"
+
+def peersStr (ps : List Peer) : String :=
+  if ps.isEmpty then "-"
+  else
+    let shown := (ps.take 64).map (fun p => s!"{p.store}.{p.peer}")
+    let s := ";".intercalate shown
+    if ps.length > 64 then s ++ s!";+{ps.length - 64}" else s
+
+def editStr (e : Edit) : String :=
+  match e.body with
+  | .file m => s!"{e.type},file,{m.level},{m.fileID},{m.size},{hx m.smallest},{hx m.largest},{m.created},{m.valueSize},{b01 m.ingest}"
+  | .log seg off => s!"{e.type},log,{seg},{off}"
+  | .vl (some m) => s!"{e.type},vl,{m.bucket},{m.fid},{m.offset},{b01 m.valid}"
+  | .vl none => s!"{e.type},nil"
+  | .raft (some p) => s!"{e.type},raft," ++ ",".intercalate (p.toList.map toString)
+  | .raft none => s!"{e.type},nil"
+  | .region (some r) => s!"{e.type},region,{r.id},{b01 r.delete},{hx r.start},{hx r.end_},{r.ver},{r.confVer},{r.state},{peersStr r.peers}"
+  | .region none => s!"{e.type},nil"
+  | .none => s!"{e.type},none"
+
+def parsePeers? (s : String) : Option (List Peer) :=
+  if s == "-" then some []
+  else (s.splitOn ";").mapM fun p =>
+    match p.splitOn "." with
+    | [a, b] => do let a ← natOf? a; let b ← natOf? b; pure ⟨a, b⟩
+    | _ => none
+
+def bool01? (s : String) : Option Bool := if s == "1" then some true else if s == "0" then some false else none
+
+def parseEdit? (s : String) : Option Edit :=
+  match s.splitOn "," with
+  | [t, "file", lv, fid, sz, sm, lg, cr, vs, ing] => do
+    let t ← natOf? t; let lv ← natOf? lv; let fid ← natOf? fid; let sz ← natOf? sz
+    let sm ← bytesOf? sm; let lg ← bytesOf? lg; let cr ← natOf? cr; let vs ← natOf? vs; let ing ← bool01? ing
+    pure ⟨t, .file ⟨lv, fid, sz, sm, lg, cr, vs, ing⟩⟩
+  | [t, "log", seg, off] => do
+    let t ← natOf? t; let seg ← natOf? seg; let off ← natOf? off
+    pure ⟨t, .log seg off⟩
+  | [t, "vl", b, f, o, v] => do
+    let t ← natOf? t; let b ← natOf? b; let f ← natOf? f; let o ← natOf? o; let v ← bool01? v
+    pure ⟨t, .vl (some ⟨b, f, o, v⟩)⟩
+  | [t, "nil"] => do
+    let t ← natOf? t
+    if t = 3 ∨ t = 4 ∨ t = 5 then pure ⟨t, .vl none⟩ else none
+  | [t, "none"] => do let t ← natOf? t; pure ⟨t, .none⟩
+  | t :: "raft" :: fields => do
+    let t ← natOf? t
+    let fs ← fields.mapM natOf?
+    match fs with
+    | [a, b, c, d, e, f, g, h, i, j, k, l] => pure ⟨t, .raft (some ⟨a, b, c, d, e, f, g, h, i, j, k, l⟩)⟩
+    | _ => none
+  | [t, "region", id, del, st, en, ver, cv, state, peers] => do
+    let t ← natOf? t; let id ← natOf? id; let del ← bool01? del; let st ← bytesOf? st; let en ← bytesOf? en
+    let ver ← natOf? ver; let cv ← natOf? cv; let state ← natOf? state; let peers ← parsePeers? peers
+    pure ⟨t, .region (some ⟨id, del, st, en, ver, cv, state, peers⟩)⟩
+  | _ => none
+
+def ordStr : Ordering → String
+  | .lt => "-1" | .eq => "0" | .gt => "1"
+
+def bodiesStr (bs : List Bytes) : String :=
+  if bs.isEmpty then "-" else ",".intercalate (bs.map (fun b => if b.isEmpty then "e" else hx b))
+
+def parseBodies? (s : String) : Option (List Bytes) :=
+  if s == "-" then some []
+  else (s.splitOn ",").mapM fun b => if b == "e" then some [] else bytesOf? b
+
+/-- spec for "any value, but neither panic nor oom" when the ok form has no `ok:` prefix -/
+def anyValue : String := "0*|1*|2*|3*|4*|5*|6*|7*|8*|9*|-*|a*|b*|c*|d*|e*|f*"
+def noCrash : String := "ok:*|err*"
+
+/-- abstract order of the property: (everything before the timestamp) ascending, then
+version descending; only defined for keys that carry a timestamp. -/
+def specCmp (a b : Bytes) : String :=
+  if a.length ≤ 8 ∨ b.length ≤ 8 then "*"
+  else
+    let pa := a.take (a.length - 8)
+    let pb := b.take (b.length - 8)
+    let va := maxU64 - beNat (a.drop (a.length - 8))
+    let vb := maxU64 - beNat (b.drop (b.length - 8))
+    if Bytes.lt pa pb then "-1" else if Bytes.lt pb pa then "1"
+    else if va > vb then "-1" else if va < vb then "1" else "0"
+
+def reply (m s : String) : String := m ++ "\t" ++ s
+
+def step (c : CodecCfg) (toks : List String) : CodecCfg × String :=
+  match toks with
+  | "cfg" :: kvs =>
+    match kvs.foldlM setCfg c with
+    | some c' => (c', "ok")
+    | none => (c, "bad-cfg")
+  | ["uv.put", n] =>
+    match natOf? n with
+    | some n => (c, reply (hx (putUvarint n)) "*")
+    | none => (c, "bad-op")
+  | ["uv.get", h] =>
+    match bytesOf? h with
+    | some b => let r := uvarintGo b; (c, reply s!"{r.1}:{r.2}" "*")
+    | none => (c, "bad-op")
+  | ["uv.read", h] =>
+    match bytesOf? h with
+    | some b =>
+      let m := match readUvarint b with
+        | .ok (v, n) => s!"ok:{v}:{n}"
+        | .error (.eof, _) => "err:eof"
+        | .error (.ueof, _) => "err:ueof"
+        | .error _ => "err"
+      (c, reply m "*")
+    | none => (c, "bad-op")
+  -- ---------------------------------------------------------------- percolator
+  | ["lock.rt", p, ts, ttl, k, mc] =>
+    match bytesOf? p, natOf? ts, natOf? ttl, natOf? k, natOf? mc with
+    | some pb, some tsn, some ttln, some kn, some mcn =>
+      let enc := encodeLock ⟨pb, tsn, ttln, kn, mcn⟩
+      let r := (decodeLock c).run enc
+      (c, reply (outStr lockStr r.1 ++ " " ++ hx enc) s!"ok:{p}:{ts}:{ttl}:{k}:{mc} *")
+    | _, _, _, _, _ => (c, "bad-op")
+  | ["lock.dec", h] =>
+    match bytesOf? h with
+    | some b => (c, reply (outStr lockStr ((decodeLock c).run b).1) noCrash)
+    | none => (c, "bad-op")
+  | ["write.rt", k, st, sh] =>
+    match natOf? k, natOf? st, bytesOf? sh with
+    | some kn, some stn, some shb =>
+      let enc := encodeWrite ⟨kn, stn, shb⟩
+      let r := (decodeWrite c).run enc
+      (c, reply (outStr writeStr r.1 ++ " " ++ hx enc) s!"ok:{k}:{st}:{sh} *")
+    | _, _, _ => (c, "bad-op")
+  | ["write.dec", h] =>
+    match bytesOf? h with
+    | some b => (c, reply (outStr writeStr ((decodeWrite c).run b).1) noCrash)
+    | none => (c, "bad-op")
+  -- ---------------------------------------------------------------- manifest
+  | ["man.rt", e] =>
+    match parseEdit? e with
+    | some ed =>
+      let enc := frameEdit ed
+      let r := readEdit c enc
+      (c, reply (outStr (fun x => "ok:" ++ editStr x) r.1 ++ " " ++ hx enc) s!"ok:{e} *")
+    | none => (c, "bad-op")
+  | ["man.dec", h] =>
+    match bytesOf? h with
+    | some b => (c, reply (outStr (fun x => "ok:" ++ editStr x) ((decodeEdit c).run b).1) noCrash)
+    | none => (c, "bad-op")
+  | ["man.read", h] =>
+    match bytesOf? h with
+    | some b => (c, reply (outStr (fun x => "ok:" ++ editStr x) (readEdit c b).1) noCrash)
+    | none => (c, "bad-op")
+  -- ---------------------------------------------------------------- keys
+  | ["ikey.rt", cf, k, ts] =>
+    match natOf? cf, bytesOf? k, natOf? ts with
+    | some cfn, some kb, some tsn =>
+      let enc := internalKey c cfn kb tsn
+      let m := match splitInternalKey c enc with
+        | some (a, b, t) => s!"{a}:{hx b}:{t}"
+        | none => "panic"
+      (c, reply (m ++ " " ++ hx enc) (if cfn ≤ 2 then s!"{cf}:{k}:{ts} *" else "*"))
+    | _, _, _ => (c, "bad-op")
+  | ["ikey.split", h] =>
+    match bytesOf? h with
+    | some b =>
+      let m := match splitInternalKey c b with
+        | some (a, u, t) => s!"{a}:{hx u}:{t}"
+        | none => "panic"
+      (c, reply m anyValue)
+    | none => (c, "bad-op")
+  | ["kts.rt", k, ts] =>
+    match bytesOf? k, natOf? ts with
+    | some kb, some tsn =>
+      let enc := keyWithTs c kb tsn
+      let m := match parseTs c enc with
+        | some t => s!"{hx (parseKey enc)}:{t}"
+        | none => "panic"
+      (c, reply (m ++ " " ++ hx enc) s!"{k}:{ts} *")
+    | _, _ => (c, "bad-op")
+  | ["kts.parse", h] =>
+    match bytesOf? h with
+    | some b =>
+      let m := match parseTs c b with
+        | some t => s!"{hx (parseKey b)}:{t}"
+        | none => "panic"
+      (c, reply m anyValue)
+    | none => (c, "bad-op")
+  | ["key.cmp", a, b] =>
+    match bytesOf? a, bytesOf? b with
+    | some ab, some bb =>
+      let m := match compareKeys ab bb with
+        | some o => ordStr o
+        | none => "panic"
+      (c, reply m (specCmp ab bb))
+    | _, _ => (c, "bad-op")
+  -- ---------------------------------------------------------------- values
+  | ["vs.rt", m, e, v] =>
+    match natOf? m, natOf? e, bytesOf? v with
+    | some mn, some en, some vb =>
+      let enc := encodeValue ⟨mn, en, vb⟩
+      let r := decodeValue c enc
+      (c, reply (outStr (fun x => s!"{x.mt}:{x.expiresAt}:{hx x.value}") r ++ " " ++ hx enc) s!"{m}:{e}:{v} *")
+    | _, _, _ => (c, "bad-op")
+  | ["vs.dec", h] =>
+    match bytesOf? h with
+    | some b => (c, reply (outStr (fun x => s!"{x.mt}:{x.expiresAt}:{hx x.value}") (decodeValue c b)) (anyValue ++ "|err*"))
+    | none => (c, "bad-op")
+  | ["vp.rt", l, o, f, b] =>
+    match natOf? l, natOf? o, natOf? f, natOf? b with
+    | some ln, some on, some fn, some bn =>
+      let enc := encodePtr ⟨ln, on, fn, bn⟩
+      let p := decodePtr enc
+      (c, reply (s!"{p.len}:{p.offset}:{p.fid}:{p.bucket} " ++ hx enc) s!"{l}:{o}:{f}:{b} *")
+    | _, _, _, _ => (c, "bad-op")
+  | ["vp.dec", h] =>
+    match bytesOf? h with
+    | some b => let p := decodePtr b; (c, reply s!"{p.len}:{p.offset}:{p.fid}:{p.bucket}" anyValue)
+    | none => (c, "bad-op")
+  | ["hdr.rt", k, v, m, e] =>
+    match natOf? k, natOf? v, natOf? m, natOf? e with
+    | some kn, some vn, some mn, some en =>
+      let enc := encodeHeader ⟨kn, vn, mn, en⟩
+      let r := decodeHeader.run enc
+      (c, reply (outStr (fun (x : Header × Int) => s!"ok:{x.1.klen}:{x.1.vlen}:{x.1.mt}:{x.1.expiresAt}:{x.2}") r.1 ++ " " ++ hx enc)
+        s!"ok:{k}:{v}:{m}:{e}:*")
+    | _, _, _, _ => (c, "bad-op")
+  | ["hdr.dec", h] =>
+    match bytesOf? h with
+    | some b =>
+      let r := decodeHeader.run b
+      (c, reply (outStr (fun (x : Header × Int) => s!"ok:{x.1.klen}:{x.1.vlen}:{x.1.mt}:{x.1.expiresAt}:{x.2}") r.1) noCrash)
+    | none => (c, "bad-op")
+  | ["ent.rt", k, v, m, e] =>
+    match bytesOf? k, bytesOf? v, natOf? m, natOf? e with
+    | some kb, some vb, some mn, some en =>
+      let enc := encodeEntry crc32c ⟨kb, vb, mn, en⟩
+      let r := decodeEntry c crc32c enc
+      (c, reply (outStr (fun (x : Entry × Nat) => s!"ok:{hx x.1.key}:{hx x.1.value}:{x.1.mt}:{x.1.expiresAt}:{x.2}") r.1 ++ " " ++ hx enc)
+        s!"ok:{k}:{v}:{m}:{e}:*")
+    | _, _, _, _ => (c, "bad-op")
+  | ["ent.dec", h] =>
+    match bytesOf? h with
+    | some b =>
+      let r := decodeEntry c crc32c b
+      (c, reply (outStr (fun (x : Entry × Nat) => s!"ok:{hx x.1.key}:{hx x.1.value}:{x.1.mt}:{x.1.expiresAt}:{x.2}") r.1) noCrash)
+    | none => (c, "bad-op")
+  | ["vsl.dec", h] =>
+    match bytesOf? h with
+    | some b =>
+      let r := decodeValueSlice crc32c b
+      (c, reply (outStr (fun (x : Bytes × Header) => s!"ok:{hx x.1}:{x.2.klen}:{x.2.vlen}:{x.2.mt}:{x.2.expiresAt}") r) noCrash)
+    | none => (c, "bad-op")
+  -- ---------------------------------------------------------------- raft / command frames
+  | ["cmd.rt", body] =>
+    match bytesOf? body with
+    | some b =>
+      let enc := cmdFrame b
+      let m := match cmdUnframe enc with
+        | some x => "cmd:" ++ hx x
+        | none => "nocmd"
+      (c, reply (m ++ " " ++ hx enc) s!"cmd:{body} *")
+    | none => (c, "bad-op")
+  | ["cmd.dec", h] =>
+    match bytesOf? h with
+    | some b => (c, reply (match cmdUnframe b with | some _ => "cmd" | none => "nocmd") "nocmd|cmd")
+    | none => (c, "bad-op")
+  | ["raft.ents.rt", g, bodies] =>
+    match natOf? g, parseBodies? bodies with
+    | some gn, some bs =>
+      let enc := frameEntries gn bs
+      let r := (unframeEntries c).run enc
+      (c, reply (outStr (fun (x : Nat × List Bytes) => s!"ok:{x.1}:{bodiesStr x.2}") r.1 ++ " " ++ hx enc) s!"ok:{g}:{bodies} *")
+    | _, _ => (c, "bad-op")
+  | ["raft.ents.dec", h] =>
+    match bytesOf? h with
+    | some b =>
+      let m := match ((unframeEntries c).run b).1 with
+        | .panic => "panic" | .oom => "oom-guard" | _ => "nopanic"
+      (c, reply m "nopanic")
+    | none => (c, "bad-op")
+  | [op, g, body] =>
+    if op == "raft.hs.rt" || op == "raft.snap.rt" then
+      match natOf? g, bytesOf? body with
+      | some gn, some b =>
+        let enc := frameOne gn b
+        let r := (unframeOne c).run enc
+        (c, reply (outStr (fun (x : Nat × Bytes) => s!"ok:{x.1}:{hx x.2}") r.1 ++ " " ++ hx enc) s!"ok:{g}:{body} *")
+      | _, _ => (c, "bad-op")
+    else (c, "bad-op")
+  | [op, h] =>
+    if op == "raft.hs.dec" || op == "raft.snap.dec" then
+      match bytesOf? h with
+      | some b =>
+        let m := match ((unframeOne c).run b).1 with
+          | .panic => "panic" | .oom => "oom-guard" | _ => "nopanic"
+        (c, reply m "nopanic")
+      | none => (c, "bad-op")
+    else (c, "bad-op")
+  | _ => (c, "bad-op")
+
+def main : IO Unit := Driver.loop CodecCfg.good step
